@@ -267,15 +267,20 @@ def value_preservation(sc, inst, old_cores, truncating=False, skip_last=False):
             unknown.append(f'{what}: no matrix expression')
             continue
         ma_c = mx.untruncate(ma) if truncating else mx.canon(ma)
-        if ma_c is None:
+        mb_c = mx.untruncate(mb) if truncating else mx.canon(mb)         # (earlier steps of the sweep may have truncated already)
+        if ma_c is None or mb_c is None:
             unknown.append(f'{what}: truncated factors of an unregistered decomposition')
             continue
-        if ma_c == mx.canon(mb):
+        if ma_c == mb_c:
             continue
         # different normal forms: a verdict only if everything the step computed is a product of known factors of the old cores
-        new_atoms = {f[:2] for f in ma_c if f[0] == 'src'} - {f[:2] for f in mx.canon(mb) if f[0] == 'src'}
-        if new_atoms:
+        new_atoms = {f[:2] for f in ma_c if f[0] == 'src'} - {f[:2] for f in mb_c if f[0] == 'src'}
+        unit_bond = len(slots) == 2 and isinstance(after[slots[0]], Arr) and A.is_one(after[slots[0]].shape[-1])
+        if unit_bond:
+            # across a bond of size one the factors are 1 x 1 matrices (scalars) and commute, which the normal form does not know
+            unknown.append(f'{what}: different normal forms across a bond of size one ({mx.show(ma_c)} / {mx.show(mb_c)})')
+        elif new_atoms:
             unknown.append(f'{what}: the new cores contain a matrix of unknown provenance ({mx.show(ma_c)})')
         else:
-            bad.append(f'{what}: the product of the new cores is  {mx.show(ma_c)}  but the cores they replace give  {mx.show(mx.canon(mb))}')
+            bad.append(f'{what}: the product of the new cores is  {mx.show(ma_c)}  but the cores they replace give  {mx.show(mb_c)}')
     return bad, unknown, n
